@@ -475,6 +475,9 @@ def run_trading(rnd, S, cfgk, intensity=1.0, script=None, analyser=False, ids=No
             plan["ct_twice"] = (not plan["generic"]) and srnd.random() < 0.4
             plan["typed_double"] = bool(S.get("_plan_generic_close")) and (not plan["generic"]) and (not plan["ct_twice"]) and srnd.random() < 0.6
             plan["two_closes"] = (not plan["generic"]) and (not plan["ct_twice"]) and (not plan["typed_double"]) and srnd.random() < 0.5
+            if S.get("_fut_plan") == "two_closes":
+                plan["generic"] = plan["ct_twice"] = plan["typed_double"] = False      # directed: two resting closes, the second reaches into today's lots
+                plan["two_closes"] = True
             if S.get("_fut_plan") == "split_close":
                 plan["generic"] = plan["ct_twice"] = plan["typed_double"] = plan["two_closes"] = False      # directed: the split close whose first part is refused
             plan["cash_edge_day"] = srnd.randrange(1, 5) if (stocks and "STOCK" in context.portfolio.accounts and srnd.random() < 0.5) else 0
